@@ -114,8 +114,16 @@ class GarbageCollector:
         # Add manifest lists from all snapshots
         for snapshot in metadata.snapshots:
             m_list_path = snapshot.manifest_list
-            if m_list_path:
-                reachable_manifest_lists.add(self._normalize_path(m_list_path))
+            if not isinstance(m_list_path, str) or not m_list_path.strip():
+                # A retained snapshot that does not say where its manifest list
+                # is: damaged metadata. Skipping it would turn the snapshot's
+                # manifest list, manifests and data files into "orphans".
+                raise GarbageCollectionAborted(
+                    f"Aborting GC: retained snapshot {snapshot.snapshot_id} has no manifest list "
+                    f"in the table metadata ({m_list_path!r}); reachability cannot be decided. "
+                    f"Nothing was deleted."
+                )
+            reachable_manifest_lists.add(self._normalize_path(m_list_path))
 
         # Process manifest lists to find manifests and data files
         for m_list_path in reachable_manifest_lists:
